@@ -403,6 +403,56 @@ def selected (w : World) (m : Method) : Bool :=
   | none => false
   | some s => selectedOn w s m
 
+/-! ## A pass is not atomic: what a method looks at again between `GetCandidates` and its command
+
+`Controller.disrupt` lists the candidates of a method (`GetCandidates`, world `w0`), builds the budgets and only then
+calls `ComputeCommands`; other controllers (expiration, static scale-down, node repair, a user deleting the
+NodeClaim, the orchestration queue) keep writing to the same in-memory cluster state meanwhile (world `w1`). -/
+
+/-- a node starts deleting while the pass is under way: `Cluster.MarkForDeletion`, or the informer delivers the
+    NodeClaim with a deletionTimestamp / with InstanceTerminating=True -/
+inductive LateDeletion | mark | claimDelete | claimTerminating
+deriving Repr, DecidableEq
+
+def LateDeletion.all : List LateDeletion := [.mark, .claimDelete, .claimTerminating]
+
+def LateDeletion.apply : LateDeletion → World → World
+  | .mark, w => { w with marked := true }
+  | .claimDelete, w => { w with claim := w.claim.map (fun c => { c with deleting := true }) }
+  | .claimTerminating, w => { w with claim := w.claim.map (fun c => { c with terminating := .true_ }) }
+
+/-- every candidate a command of the method contains went through `SimulateScheduling` (Drift: one candidate at a
+    time; Multi/SingleNodeConsolidation: `computeConsolidation`).  Emptiness and StaticDrift build their commands
+    without a scheduling simulation.  Read off the regenerated call lists of the `ComputeCommands` bodies. -/
+def simulates : Method → Bool
+  | .drift => CandidateFacts.driftComputeCalls.contains "SimulateScheduling"
+  | .single =>
+    CandidateFacts.singleComputeCalls.contains "computeConsolidation" &&
+    CandidateFacts.computeConsolidationCalls.contains "SimulateScheduling"
+  | .multi =>
+    CandidateFacts.multiComputeCalls.contains "firstNConsolidationOption" &&
+    CandidateFacts.multiOptionCalls.contains "computeConsolidation" &&
+    CandidateFacts.computeConsolidationCalls.contains "SimulateScheduling"
+  | .emptiness => CandidateFacts.emptinessComputeCalls.contains "SimulateScheduling"
+  | .staticDrift =>
+    -- (or any other look at the deletion state of its candidates)
+    CandidateFacts.staticDriftComputeCalls.any (fun c => ["SimulateScheduling", "Deleting", "MarkedForDeletion", "Deleted"].contains c)
+
+/-- the method validates its command after a delay by listing its candidates again (graceful methods) -/
+def revalidates (m : Method) : Bool := classOf m == .graceful
+
+/-- the "one final check" of `SimulateScheduling`: the candidate is not among `cluster.DeepCopyNodes().Deleting()`
+    (a node the cluster state no longer tracks is not among them either) -/
+def finalLook (w : World) : Bool :=
+  match stateNode w with
+  | some s => !s.markedForDeletion
+  | none => true
+
+/-- the node may be a candidate of a command of method `m` that was computed in world `w1` from the candidates
+    listed in world `w0` -/
+def mayCommand (m : Method) (w0 w1 : World) : Bool :=
+  selected w0 m && (!simulates m || finalLook w1) && (!revalidates m || selected w1 m)
+
 /-! ## Maintenance of the Consolidatable condition (`nodeclaim.disruption` controller) -/
 
 /-- `disruption.IsUnderConsolidateAfter` -/
